@@ -297,32 +297,96 @@ def check_creators(chk, tus, prov):
     chk.require(n_sites >= 6, 'only %d file-affecting call sites found (expected >= 6)' % n_sites)
 
 
-def check_main_order(chk, main_tu, prov):
-    f = main_tu.fn('main')
+def call_graph(prov):
+    g = {}
+    for callee, sites in prov.calls.items():
+        for node, f, tu in sites:
+            if callee in ('fopen', 'freopen') and astdb.string_value(astdb.call_args(node)[1]) in ('r', 'rb'):
+                continue        # opening for reading creates nothing
+            g.setdefault(f.get('name'), set()).add(callee)
+    return g
+
+
+def reaches(graph, start, leaves, _seen=None):
+    """does a call of `start` reach (through direct callees) one of `leaves`?"""
+    seen = _seen if _seen is not None else set()
+    if start in leaves:
+        return True
+    if start in seen:
+        return False
+    seen.add(start)
+    return any(reaches(graph, c, leaves, seen) for c in graph.get(start, ()))
+
+
+def directory_changer(chk, prov):
+    """the function that performs the chdir - found by the call, not by its name"""
+    fns = sorted({f.get('name') for node, f, tu in prov.calls.get('chdir', [])})
+    if len(fns) > 1:
+        raise AnalysisBroken('chdir is called from %r: more than one directory changer is not a recognised shape' % fns)
+    return fns[0] if fns else None
+
+
+def check_effect_order(chk, prov, graph, changer, fname, depth=0, trail=()):
+    """every call in `fname` that reaches a file-creating/deleting primitive is dominated by the directory change"""
+    f, tu = prov.fn_of[fname]
     body = astdb.fn_body(f)
-    chk.require(not cfg.has_goto(body), 'main uses goto')
-    targets = ('wasmCWriteModule', 'cleanImplementationFiles')
-    res = cfg.must_before(body, cfg.calls_gen,
-                          lambda n: n.get('kind') == 'CallExpr' and astdb.callee_name(n) in targets)
+    chk.require(not cfg.has_goto(body), '%s uses goto' % fname)
+    change = {changer, 'chdir'}
+
+    def is_effect(n):
+        if n.get('kind') != 'CallExpr':
+            return False
+        cn = astdb.callee_name(n)
+        return bool(cn) and cn not in change and reaches(graph, cn, CREATORS)
+    res = cfg.must_before(body, cfg.calls_gen, is_effect)
     found = set()
     for node, facts in res.values():
         cn = astdb.callee_name(node)
         found.add(cn)
-        chk.expect(facts is not None and 'call:changeToOutputDirectory' in facts, 'R20.2', 'chdir-dominates:' + cn,
-                   'main reaches %s on a path that has not changed into the output directory' % cn, 'main:' + cn, astdb.loc_str(node))
-    chk.require(found == set(targets), 'main does not call %r' % (set(targets) - found,))
-    # changeToOutputDirectory: chdir(dirname(copy of its parameter)), failure leaves the function with false
-    g = main_tu.fn('changeToOutputDirectory')
+        inst = '/'.join(trail + (fname, cn))
+        if facts is not None and any('call:' + c in facts for c in change):
+            chk.ok('R20.2', 'chdir-dominates:' + inst)
+            continue
+        through = [x[5:] for x in (facts or ()) if x.startswith('call:') and x[5:] not in change and reaches(graph, x[5:], {'chdir'})]
+        if through:
+            raise AnalysisBroken('%s: the directory change before %s happens inside %r - wrapper shape not recognised' % (fname, cn, through))
+        if cn in prov.fn_of and reaches(graph, cn, {'chdir'}) and depth < 3:
+            # the callee changes directory itself: the order must hold inside it
+            found |= check_effect_order(chk, prov, graph, changer, cn, depth + 1, trail + (fname,))
+            continue
+        chk.fail('R20.2', 'chdir-dominates:' + inst,
+                 '%s reaches %s (which creates or deletes files) on a path that has not changed into the output directory: its file '
+                 'names are then resolved against the caller\'s working directory' % (fname, cn), fname + ':' + cn, astdb.loc_str(node))
+    return found
+
+
+def check_main_order(chk, main_tu, prov):
+    f = main_tu.fn('main')
+    body = astdb.fn_body(f)
+    graph = call_graph(prov)
+    changer = directory_changer(chk, prov)
+    if changer is None:
+        chk.fail('R20.2', 'chdir-exists', 'no function of the translator calls chdir: outputs and the -c cleaner act on the working directory',
+                 'main:no-chdir')
+        return None
+    found = check_effect_order(chk, prov, graph, changer, 'main')
+    targets = {'wasmCWriteModule', 'cleanImplementationFiles'}
+    chk.require(targets <= found, 'main does not call %r' % (targets - found,))
+    # the changer: chdir(dirname(copy of its parameter)), failure leaves the function with false
+    g, gtu = prov.fn_of[changer]
     ch = [n for n in walk(astdb.fn_body(g)) if n.get('kind') == 'CallExpr' and astdb.callee_name(n) == 'chdir']
-    chk.require(len(ch) == 1, 'changeToOutputDirectory has %d chdir calls' % len(ch))
+    chk.require(len(ch) == 1, '%s has %d chdir calls' % (changer, len(ch)))
     tags = prov.of(astdb.call_args(ch[0])[0], g)
     chk.expect('dirname' in tags, 'R20.2', 'chdir-target', 'chdir target comes from %s, expected dirname(output path)' % sorted(tags),
-               'changeToOutputDirectory:chdir', astdb.loc_str(ch[0]))
-    # the caller must leave main when it fails
-    calls = [n for n in walk(body) if n.get('kind') == 'IfStmt' and any(
-        x.get('kind') == 'CallExpr' and astdb.callee_name(x) == 'changeToOutputDirectory' for x in walk(n['inner'][0]))]
-    ok = bool(calls) and any(x.get('kind') == 'ReturnStmt' for x in walk(calls[0]['inner'][1]))
-    chk.expect(ok, 'R20.2', 'chdir-failure-exits', 'main continues after a failed change of directory', 'main:chdir-failure')
+               changer + ':chdir', astdb.loc_str(ch[0]))
+    # every caller must give up when the change fails
+    sites = prov.calls.get(changer, []) if changer != 'main' else []
+    chk.require(changer == 'main' or sites, '%s is never called' % changer)
+    for node, caller, ctu in sites:
+        ifs = [n for n in walk(astdb.fn_body(caller)) if n.get('kind') == 'IfStmt' and any(x is node for x in walk(n['inner'][0]))]
+        ok = bool(ifs) and any(x.get('kind') == 'ReturnStmt' for x in walk(ifs[0]['inner'][1]))
+        chk.expect(ok, 'R20.2', 'chdir-failure-exits:' + caller.get('name'), '%s continues after a failed change of directory' % caller.get('name'),
+                   caller.get('name') + ':chdir-failure')
     # R20.3: the cleaner runs only under the clean flag, and only main calls it
     callers = prov.calls.get('cleanImplementationFiles', [])
     chk.expect(len(callers) == 1 and callers[0][1].get('name') == 'main', 'R20.3', 'cleaner-callers',
@@ -610,7 +674,7 @@ def string_leafs():
             'strlen': strlen, '__builtin_strlen': strlen, 'strcat': strcat}
 
 
-def check_writer_names(chk, c_tu):
+def check_writer_names(chk, c_tu, changer=None):
     from ..emit import _cstr
     chk.require('wasmCWriteModule' in c_tu.functions, 'anchor wasmCWriteModule not found')
     chk.fn('wasmCWriteModule')
@@ -627,6 +691,8 @@ def check_writer_names(chk, c_tu):
             return 1
         leafs = string_leafs()
         leafs.update({'wasmCWriteModuleHeader': header, 'wasmCWriteModuleImplementation': impl})
+        if changer and changer != 'wasmCWriteModule':
+            leafs[changer] = lambda i, a_, n: 1       # the directory change itself is decided by R20.6
         it = pe.Interp([c_tu], leafs)
 
         def setup(path=path):
@@ -667,10 +733,12 @@ def posix_dirname(path):
     return d if d else '/'
 
 
-def check_directory_change(chk, main_tu):
+def check_directory_change(chk, prov):
     from ..emit import _cstr
-    fn = 'changeToOutputDirectory'
-    chk.require(fn in main_tu.functions, 'anchor %s not found in main.c' % fn)
+    fn = directory_changer(chk, prov)
+    if fn is None:
+        return          # reported by R20.2
+    main_tu = prov.fn_of[fn][1]
     chk.fn(fn)
     site = fn + ':chdir'
     for path in DIR_FAMILY:
@@ -733,8 +801,8 @@ def run(chk):
     check_creators(chk, tus, prov)
     check_main_order(chk, main_tu, prov)
     check_filter(chk, main_tu, c_tu, filename_length_macro(c_tu))
-    check_writer_names(chk, c_tu)
-    check_directory_change(chk, main_tu)
+    check_writer_names(chk, c_tu, directory_changer(chk, prov))
+    check_directory_change(chk, prov)
     chk.floor('R20.1', 5)
     chk.floor('R20.2', 6)
     chk.floor('R20.3', 4)
